@@ -171,6 +171,17 @@ impl McSystem {
             if let McEvent::MessageReceived { msg, src, dst, .. } = event {
                 event = self.net.send_message(msg, src, dst);
             }
+            // messages from or to a crashed node are lost even if the network was reset after the crash
+            if let McEvent::MessageReceived { msg, src, dst, .. } = &event {
+                if self.proc_node_is_crashed(src) || self.proc_node_is_crashed(dst) {
+                    event = McEvent::MessageDropped {
+                        msg: msg.clone(),
+                        src: src.clone(),
+                        dst: dst.clone(),
+                        receive_event_id: None,
+                    };
+                }
+            }
             match &event {
                 McEvent::TimerCancelled { proc, timer } => {
                     self.events.cancel_timer(proc.clone(), timer.clone());
@@ -184,6 +195,10 @@ impl McSystem {
                 }
             }
         }
+    }
+
+    fn proc_node_is_crashed(&self, proc: &String) -> bool {
+        self.nodes[self.net.get_proc_node(proc)].is_crashed()
     }
 
     fn get_approximate_event_time(depth: u64) -> f64 {
